@@ -7,9 +7,11 @@ git checkout -q -- . ; rm -f tests/demo.rs
 NIGHTLY=0; grep -q "protected.rs\|nightly" $M/patch.diff $M/meta.json && NIGHTLY=1
 git apply $M/patch.diff || { echo '{"applies": false}' > $M/confirm.json; exit 1; }
 T1=0; cargo test --offline > $M/tests_stable.log 2>&1 || T1=1
+grep -q "base64" $M/meta.json && { cargo test --offline --features base64,serde >> $M/tests_stable.log 2>&1 || T1=1; }
 T2=0; if [ $NIGHTLY = 1 ]; then cargo +nightly test --offline --features nightly,serde,base64 > $M/tests_nightly.log 2>&1 || T2=1; fi
 cp $M/demo.rs tests/demo.rs
-if [ $NIGHTLY = 1 ]; then DC="cargo +nightly test --offline --features nightly --test demo -- --test-threads=1"; else DC="cargo test --offline --test demo"; fi
+FEAT=""; grep -q "base64" $M/meta.json && FEAT="--features base64,serde"
+if [ $NIGHTLY = 1 ]; then DC="cargo +nightly test --offline --features nightly,base64,serde --test demo -- --test-threads=1"; else DC="cargo test --offline $FEAT --test demo"; fi
 D1=0; $DC > $M/demo_with.log 2>&1 || D1=1
 git checkout -q -- .
 D0=0; $DC > $M/demo_without.log 2>&1 || D0=1
